@@ -1511,3 +1511,85 @@ Lemma json_partial d :
 Proof.
   intros Hj Hi Ha Hn Hb. split; [now apply raw_fromdict|]. intros W Ht. now apply raw_json_route.
 Qed.
+
+(* ================================================================== to_dict of typed objects *)
+Lemma r_dict_canon : forall d, no_list_keys d = true -> r_dict (raw_canon d) = Ok (json_of d).
+Proof.
+  unfold no_list_keys.
+  induction d as [i fs IH|kvs IH|xs IH|z|b] using data_ind'; intros H.
+  - apply all_nodes_constr in H as [_ Hf].
+    assert (M : mapM r_dict (map raw_canon fs) = Ok (map json_of fs)).
+    { apply mapM_map2. exact (Forall_mp _ _ _ IH Hf). }
+    cbn [raw_canon json_of]. destruct (tag_spec i) as [t|] eqn:T.
+    + apply r_dict_tag_seq; [now apply untag_tag | exact M].
+    + cbn [r_dict]. change (untag 102 (lenN [PInt (Z.of_N i); seqv (map raw_canon fs)])) with UPair. cbv iota.
+      destruct fs as [|f fs]; cbn [map seqv]; cbn [map] in M.
+      * destruct (Z.of_N i <? 0)%Z eqn:Q; [bconv; lia|]. cbn [mapM bind]. now rewrite N2Z.id.
+      * destruct (Z.of_N i <? 0)%Z eqn:Q; [bconv; lia|]. rewrite M. cbn [bind]. now rewrite N2Z.id.
+  - apply all_nodes_map in H as [Hk Hf]. cbn [raw_canon json_of r_dict].
+    rewrite (mapM_map2 _ _ (fun kv => (json_of (fst kv), json_of (snd kv)))); [reflexivity|].
+    cbn [n_no_list_keys] in Hk. rewrite forallb_Forall in Hk.
+    induction IH as [|kv kvs [H1 H2] _ IHk]; inversion Hf as [|? ? [F1 F2] Hf']; inversion Hk as [|? ? K1 Hk'];
+      subst; constructor; auto.
+    cbn [fst snd]. rewrite H2 by assumption. cbn [bind].
+    assert (E : match raw_canon (fst kv) with PList _ => Err E_Type | _ => r_dict (raw_canon (fst kv)) end
+                = r_dict (raw_canon (fst kv))).
+    { destruct (fst kv) as [i fs|kvs'|xs|z|b]; cbn [raw_canon]; try reflexivity; [| discriminate |].
+      - destruct (tag_spec i); reflexivity.
+      - destruct (length b <=? 64)%nat; reflexivity. }
+    rewrite E, H1 by assumption. reflexivity.
+  - apply all_nodes_list in H as [_ Hf]. cbn [raw_canon json_of].
+    assert (M : mapM r_dict (map raw_canon xs) = Ok (map json_of xs)).
+    { apply mapM_map2. exact (Forall_mp _ _ _ IH Hf). }
+    destruct xs as [|x xs]; [reflexivity|]. cbn [seqv map]. cbn [map] in M. cbn [r_dict]. now rewrite M.
+  - reflexivity.
+  - cbn [raw_canon json_of]. destruct (length b <=? 64)%nat; reflexivity.
+Qed.
+
+Lemma typed_todict : forall v,
+  canon_typed v = true -> no_tag_outside_raw v = true -> vshape v_raw_nolistkeys v = true ->
+  t_dict v = Ok (json_of (abs v)).
+Proof.
+  unfold canon_typed, no_tag_outside_raw.
+  induction v as [z|b|b|xs IH|xs IH|kvs IH|t v IH|id fts fs IH|w IH] using pv_ind'; cbn [vshape]; intros H Ht Hk;
+    apply andb_true_iff in H as [Hn Hc]; apply andb_true_iff in Ht as [Ht Htc]; apply andb_true_iff in Hk as [Hk Hkc];
+    try reflexivity; try discriminate.
+  - rewrite forallb_Forall in Hc, Htc, Hkc. cbn [t_dict abs json_of].
+    rewrite (mapM_map _ (fun y => json_of (abs y))) by exact (Forall_mp _ _ _ (Forall_mp _ _ _ (Forall_mp _ _ _ IH Hc) Htc) Hkc).
+    cbn [bind]. now rewrite map_map.
+  - rewrite forallb_Forall in Hc, Htc, Hkc. cbn [t_dict abs json_of].
+    rewrite (mapM_map _ (fun y => json_of (abs y))) by exact (Forall_mp _ _ _ (Forall_mp _ _ _ (Forall_mp _ _ _ IH Hc) Htc) Hkc).
+    cbn [bind]. now rewrite map_map.
+  - rewrite forallb_Forall in Hc, Htc, Hkc. cbn [t_dict abs json_of].
+    rewrite (mapM_map _ (fun kv => (json_of (abs (fst kv)), json_of (abs (snd kv))))).
+    + cbn [bind]. now rewrite map_map.
+    + clear -IH Hc Htc Hkc.
+      induction IH as [|kv kvs [H1 H2] _ IHk]; inversion Hc as [|? ? C1 Hc']; inversion Htc as [|? ? T1 Htc'];
+        inversion Hkc as [|? ? K1 Hkc']; subst; constructor; auto.
+      apply andb_true_iff in C1 as [C1 C2]. apply andb_true_iff in T1 as [T1 T2]. apply andb_true_iff in K1 as [K1 K2].
+      cbn [fst snd]. rewrite H1, H2 by assumption. reflexivity.
+  - rewrite forallb_Forall in Hc, Htc, Hkc. cbn [t_dict abs json_of].
+    rewrite (mapM_map _ (fun y => json_of (abs y))) by exact (Forall_mp _ _ _ (Forall_mp _ _ _ (Forall_mp _ _ _ IH Hc) Htc) Hkc).
+    cbn [bind]. now rewrite map_map.
+  - unfold n_typed in Hn. repeat (apply andb_true_iff in Hn as [Hn ?]).
+    match goal with Hr : v_rawc (PRaw w) = true |- _ => cbn [v_rawc] in Hr; apply rawc_elim in Hr as (E & Hi & Hd) end.
+    cbn [v_raw_nolistkeys] in Hk. cbn [t_dict abs]. rewrite E at 1. rewrite r_to_prim_canon by assumption.
+    now apply r_dict_canon.
+Qed.
+
+(* ----- more non-vacuity examples ----- *)
+Example ex_raw_build_py : to_cbor (PRaw (pynorm (raw_py_top fix_d))) = Ok (plutus_bytes fix_d).
+Proof. apply raw_build_py; reflexivity. Qed.
+Example ex_long_guard : mk_obj 1 [TBytes] [PBytes b65] = Err E_InvArg.
+Proof. apply (long_guard 1 [TBytes] [PBytes b65] b65); cbn; auto; lia. Qed.
+Example ex_raw_region_sound : forall route, (route <= 8)%nat -> raw_model route fix_d = raw_expect route fix_d.
+Proof.
+  intros route H. apply raw_region_sound; [apply fix_wf | exact H |].
+  destruct route as [|[|[|[|[|[|[|[|[|]]]]]]]]]; try lia; reflexivity.
+Qed.
+Example ex_typed_region_sound :
+  typed_model 0 (TCls 1 T_vest) (fix_x (PIList [PInt 4; PInt 5; PInt 6]))
+  = typed_expect 0 (fix_x (PIList [PInt 4; PInt 5; PInt 6])).
+Proof. apply typed_region_sound; [lia | reflexivity | reflexivity]. Qed.
+Example ex_typed_todict : t_dict (fix_x (PIList [PInt 4; PInt 5; PInt 6])) = Ok (json_of fix_d).
+Proof. apply (typed_todict (fix_x (PIList [PInt 4; PInt 5; PInt 6]))); reflexivity. Qed.
